@@ -221,7 +221,9 @@ func shamirOps(w *world, name string, receiver int) mp.Ops[multiparty.ShamirSecr
 		Stream: func(a multiparty.ShamirSecretShare, wrap func(io.Reader) io.Reader) (multiparty.ShamirSecretShare, error) {
 			return mp.StreamHop[multiparty.ShamirSecretShare](a, wrap)
 		},
-		Flat: func(a multiparty.ShamirSecretShare) mp.Flat { return mp.Flat{Tag: "qp", Rows: mp.RowsQP(nil, w.params, a.Poly)} },
+		Flat: func(a multiparty.ShamirSecretShare) mp.Flat {
+			return mp.Flat{Tag: "qp", Rows: mp.RowsQP(nil, w.params, a.Poly)}
+		},
 	}
 }
 
@@ -631,10 +633,10 @@ func collideLeaf(c *engine.Chooser, name string, k cfg) {
 	params := k.chain.RLWE(!k.coef)
 	q0, p0 := params.Q()[0], params.P()[0]
 	variants := [][]uint64{
-		{5, 5 + q0, 7},       // two points equal modulo q0
-		{p0, 3, 4},           // a point that is 0 modulo p0
-		{2, 2 + p0, 2 + q0},  // one point colliding with two others in different fields
-		{q0, 3, 4},           // a point that is 0 modulo q0
+		{5, 5 + q0, 7},      // two points equal modulo q0
+		{p0, 3, 4},          // a point that is 0 modulo p0
+		{2, 2 + p0, 2 + q0}, // one point colliding with two others in different fields
+		{q0, 3, 4},          // a point that is 0 modulo q0
 	}
 	c.Cover("kind", k.kind)
 	v := c.Choose(len(variants), "points")
